@@ -280,6 +280,10 @@ class _Builder:
             if p.get('did') is None or not is_node(a):
                 continue
             simple = all(_pure(x) for x in walk(a))
+            pt = (g.types[p['t'] - toff] if isinstance(p.get('t'), int) and 0 <= p['t'] - toff < len(g.types) else '').strip()
+            by_value_object = not pt.endswith('&') and not pt.endswith('*') and not re.match(r'^(const )?(unsigned |signed )?(int|long|short|char|bool|double|float|std::size_t|size_t|std::u?int\d+_t|u?int\d+_t)( const)?$', pt)
+            if by_value_object:
+                simple = False      # the helper works on its own copy of the object: keep it a local initialised from the argument
             if simple and p['did'] not in written:
                 subst[p['did']] = a
             else:
